@@ -469,6 +469,31 @@ fn gen_scn(rng: &mut Rng, pool: &[Pfx], rec: &mut Recorder) -> Scn {
             _ => { ops.push(Op::Msg(i, M::PeerDown(k))); rec.bump("op-peer-down"); }
         }
     }
+    // a run of one kind of message the state machine rejects (all but possibly the first), at a boundary
+    // length, on a live session with routes in the RIB; then the session ends (or goes on): whatever a
+    // receiver counts in a row must not change what the end of the session withdraws
+    if rng.chance(1, 5) {
+        const RUNS: [u64; 14] = [3, 8, 9, 10, 11, 16, 17, 31, 32, 33, 64, 65, 128, 129];
+        let r = rng.below(nr as u64) as usize;
+        let k = rng.below(routers[r].peers.len() as u64) as usize;
+        let n = *rng.pick(&RUNS);
+        let kind = rng.below(3);
+        let at = ops.len();
+        for _ in 0..n {
+            ops.push(Op::Msg(cur[r], match kind {
+                0 => M::PeerUp(k),
+                1 => M::PeerDown(k),
+                _ => { let mut u = gen_upd(rng, &focus, &safi_of); if u.corrupt == 0 { u.corrupt = 1 + rng.below(3) as u8; } M::Rm(k, RmSpec { upd: u, mark: false }) }
+            }));
+        }
+        if kind == 1 { ops.insert(at, Op::Msg(cur[r], M::PeerUp(((k + 1) % routers[r].peers.len()) as usize))); }
+        rec.bump("op-rejected-run");
+        match rng.below(4) {
+            0 => { ops.push(Op::Disconnect(cur[r])); rec.bump("op-connection-lost"); }
+            1 => { ops.push(Op::Msg(cur[r], M::Term)); rec.bump("op-termination"); }
+            _ => { let s = RmSpec { upd: gen_upd(rng, &focus, &safi_of), mark: false }; ops.push(Op::Msg(cur[r], M::Rm(k, s))); ops.push(Op::Disconnect(cur[r])); }
+        }
+    }
     Scn { routers, ops }
 }
 
